@@ -1028,18 +1028,16 @@ class RTCPeerConnection(AsyncIOEventEmitter):
             oldTransports = set()
             slaveMids = bundle.items[1:]
             for transceiver in self.__transceivers:
-                if transceiver.mid in slaveMids and not transceiver._bundled:
-                    oldTransports.add(transceiver.receiver.transport)
-                    transceiver.receiver.setTransport(primaryTransport)
-                    transceiver.sender.setTransport(primaryTransport)
+                if transceiver.mid in slaveMids:
+                    if transceiver.receiver.transport is not primaryTransport:
+                        oldTransports.add(transceiver.receiver.transport)
+                        transceiver.receiver.setTransport(primaryTransport)
+                        transceiver.sender.setTransport(primaryTransport)
                     transceiver._bundled = True
-            if (
-                self.__sctp
-                and self.__sctp.mid in slaveMids
-                and not self.__sctp._bundled
-            ):
-                oldTransports.add(self.__sctp.transport)
-                self.__sctp.setTransport(primaryTransport)
+            if self.__sctp and self.__sctp.mid in slaveMids:
+                if self.__sctp.transport is not primaryTransport:
+                    oldTransports.add(self.__sctp.transport)
+                    self.__sctp.setTransport(primaryTransport)
                 self.__sctp._bundled = True
 
             # stop and discard old ICE transports
